@@ -119,6 +119,13 @@ where
 
     /// Await this task until it is ready and we've received the result.
     pub async fn ready(&self) -> T {
+        // Register for the "ready" signal _before_ looking at the result: `notify_waiters` only
+        // wakes futures which already exist and stores no permit, a signal fired between the
+        // check below and a later registration would be lost and we would wait forever.
+        let notified = self.ready_signal.notified();
+        tokio::pin!(notified);
+        notified.as_mut().enable();
+
         // Check if an result already exists and return it directly.
         {
             let ready_result = self.ready_result.lock().await;
@@ -133,7 +140,7 @@ where
         verif::point("ready:checked").await;
 
         // If not, we wait until we got notified that an result exists.
-        self.ready_signal.notified().await;
+        notified.await;
 
         let ready_result = self.ready_result.lock().await;
         ready_result
